@@ -205,6 +205,18 @@ def check_reflexive(prog, rep, rule):
 MEASURES = ('strlen', 'strnlen', 'length', 'wcslen', 'find', 'char_traits')
 
 
+def call_parts(f, n):
+    """(object expression, argument list) of a member call node"""
+    ch = [x for x in n.get('c', []) if x]
+    if not ch:
+        return None, []
+    callee = strip(ch[0])
+    obj = None
+    if callee is not None and callee['k'] == 'MemberExpr' and callee.get('c'):
+        obj = callee['c'][0]
+    return obj, ch[1:]
+
+
 def check_array_key(prog, rep, rule):
     """A field key given as a character array (char key[16] filled at run time, or a literal) is compared as the text up to its terminator:
     the extent the writer emits for it (the array decays to a pointer and WriteValue(const char*) measures it). Comparing the whole array
@@ -242,6 +254,21 @@ def check_array_key(prog, rep, rule):
                     verdicts.append(('bad', n, 'the length is the constant %s taken from the array extent' % (a1.get('cv', (strip(a1) or {}).get('cv')))))
                 else:
                     verdicts.append(('unknown', n, 'length expression not recognised'))
+        # partial comparisons: compare(pos, count, text) looks at a window of the stored key only - a request that is a prefix of another key matches it
+        for n in f.walk():
+            if n['k'] != 'CXXMemberCallExpr':
+                continue
+            c = f.callee(n) or {}
+            if c.get('n') != 'compare' or 'basic_string' not in (c.get('q') or ''):
+                continue
+            obj, args = call_parts(f, n)
+            args = [a for a in args if a and a['k'] != 'CXXDefaultArgExpr']
+            if not any(x['k'] == 'DeclRefExpr' and x.get('d') == prm for a in args for x in f.walk(a)):
+                continue
+            if len(args) == 1:
+                verdicts.append(('ok', n, 'compare(text) over the whole stored key'))
+            else:
+                verdicts.append(('prefix', n, 'compare() with %d arguments looks only at a window (position, count) of the stored key' % len(args)))
         if not verdicts:
             rep.defer_broken('%s: %s does not build a string_view from its array parameter - comparison form not modelled' % (rule, f.id[:120]))
             continue
@@ -253,6 +280,10 @@ def check_array_key(prog, rep, rule):
             rep.touch(f)
             if v == 'ok':
                 rep.ok(rule, 'operator==(T(&)[N])|%s' % why, sample={'site': f.loc(n), 'parameter': pt})
+            elif v == 'prefix':
+                rep.finding(rule, 'operator==(T(&)[N])|partial comparison', f.loc(n),
+                            'CVariableKey::operator==(%s): %s; a requested key that is a proper prefix of a key in the document ("nick" / "nickname") '
+                            'compares equal, so an absent field is loaded from its neighbour and reported as loaded' % (pt, why), func=f.id)
             elif v == 'bad':
                 rep.finding(rule, 'operator==(T(&)[N])|whole array extent compared', f.loc(n),
                             'CVariableKey::operator==(%s): %s; a key composed in a buffer longer than its text (char key[16]; snprintf(key, ...)) never '
